@@ -1,5 +1,6 @@
 """Lip4 (IPv4 codec sub-check: C19, C05, C06, C07, C01) configuration for ./check"""
 CONF = {
+    'coq_sample': 15,   # cases re-evaluated inside Coq by vm_compute against the extracted runner's output
     'interesting': ['truncated-prefix-of-valid', 'option-length-extreme', 'residue-options', 'residue-padding',
                     'pad-residue', 'odd-payload', 'dirty-buffer', 'no-fixlengths', 'error-after-add',
                     'two-or-more-options', 'padding-lost'],
